@@ -475,6 +475,18 @@ impl<'a> Model<'a> {
                 array = Some(*r);
             }
         }
+        if !matches!(
+            source_cell,
+            Cell::CellFormula { .. } | Cell::ArrayFormula { .. }
+        ) {
+            // A plain value is moved as it is. Re-typing its displayed text could reinterpret
+            // it: the quote-prefixed text '007 would come back as the number 7.
+            let cell = source_cell.clone();
+            let worksheet = self.workbook.worksheet_mut(sheet)?;
+            worksheet.update_cell(target_row, target_column, cell)?;
+            worksheet.remove_cell(source_row, source_column)?;
+            return Ok(());
+        }
         let formula_or_value = self
             .get_cell_formula(sheet, source_row, source_column)?
             .unwrap_or_else(|| {
@@ -1098,7 +1110,13 @@ impl<'a> Model<'a> {
                 }
             }
 
-            original_cells.push((r.row, formula_or_value, style_idx, array));
+            // plain values are moved as they are (re-typing could reinterpret them)
+            let plain = if matches!(cell, Cell::CellFormula { .. } | Cell::ArrayFormula { .. }) {
+                None
+            } else {
+                Some(cell.clone())
+            };
+            original_cells.push((r.row, formula_or_value, style_idx, array, plain));
             let ws = self.workbook.worksheet_mut(sheet)?;
             ws.remove_cell(r.row, column)?;
         }
@@ -1135,8 +1153,12 @@ impl<'a> Model<'a> {
                     .set_column_width_and_style(c + 1, w, h, s)?;
             }
         }
-        for (r, value, style_idx, array) in original_cells {
-            if let Some(a) = array {
+        for (r, value, style_idx, array, plain) in original_cells {
+            if let Some(cell) = plain {
+                self.workbook
+                    .worksheet_mut(sheet)?
+                    .update_cell(r, target_column, cell)?;
+            } else if let Some(a) = array {
                 self.set_user_array_formula(sheet, r, target_column, a.0, a.1, &value)?;
             } else {
                 self.set_user_input(sheet, r, target_column, value)?;
@@ -1242,7 +1264,13 @@ impl<'a> Model<'a> {
                     array = Some(*r);
                 }
             }
-            original_cells.push((*c, formula_or_value, style_idx, array));
+            // plain values are moved as they are (re-typing could reinterpret them)
+            let plain = if matches!(cell, Cell::CellFormula { .. } | Cell::ArrayFormula { .. }) {
+                None
+            } else {
+                Some(cell.clone())
+            };
+            original_cells.push((*c, formula_or_value, style_idx, array, plain));
             let ws = self.workbook.worksheet_mut(sheet)?;
             ws.remove_cell(row, *c)?;
         }
@@ -1261,8 +1289,12 @@ impl<'a> Model<'a> {
                 }
             }
         }
-        for (c, value, style_idx, array) in original_cells {
-            if let Some(array_range) = array {
+        for (c, value, style_idx, array, plain) in original_cells {
+            if let Some(cell) = plain {
+                self.workbook
+                    .worksheet_mut(sheet)?
+                    .update_cell(target_row, c, cell)?;
+            } else if let Some(array_range) = array {
                 self.set_user_array_formula(
                     sheet,
                     target_row,
